@@ -2480,6 +2480,12 @@ pub fn compile<I: BufRead, O: Write>(
                 error: format!("Invalid macro name '{}' in -D option", def),
             });
         }
+        // A value is one line of text: a line break would shift every later line number
+        if value.contains(['\n', '\r']) {
+            return Err(Error::Configuration {
+                error: format!("Line break in the value of macro '{}' in -D option", def),
+            });
+        }
         context.define(def, value);
     }
 
